@@ -423,6 +423,8 @@ def run_C11(ctx, R):
     _per_config(ctx, R, _only_functions(lst.lst1, {'cJSON_Duplicate_rec'}, 'LST1', 1))
     _per_config(ctx, R, _only_functions(tree.lst4, {'cJSON_Duplicate', 'cJSON_Duplicate_rec'}, 'LST4', 0))
     _per_config(ctx, R, _only_functions(_own_cjson, {'cJSON_Duplicate', 'cJSON_Duplicate_rec'}, 'OWN2', 4))
+    from .rules import shape as _shape
+    _per_config(ctx, R, _shape.shp4)
 
 
 def run_C12(ctx, R):
